@@ -307,3 +307,24 @@ def through_copies(func, expr, steps: int = 3):
         else:
             break
     return expr
+
+
+class _Expand(ast.NodeTransformer):
+    def __init__(self, func, depth):
+        self.func, self.depth = func, depth
+
+    def visit_Name(self, node):
+        if isinstance(node.ctx, ast.Load) and self.depth > 0:
+            v = single_assignment(self.func, node.id)
+            if v is not None:
+                import copy
+                return _Expand(self.func, self.depth - 1).visit(
+                    copy.deepcopy(v))
+        return node
+
+
+def expand_expr(func, expr, depth: int = 4):
+    """A copy of expr in which every local that is bound exactly once by a
+    plain assignment is replaced by its value (recursively, bounded)."""
+    import copy
+    return _Expand(func, depth).visit(copy.deepcopy(expr))
